@@ -172,4 +172,115 @@ example :
       = [false, false, true, false, true, false, true, false, true] := by
   decide
 
+/-! ## the nested-module cache is transparent -/
+
+theorem mem_ancestorsOrSelf (p a : Path) : a ∈ ancestorsOrSelf p ↔ ∃ k, k ≤ p.length ∧ a = p.take k := by
+  unfold ancestorsOrSelf
+  simp only [List.mem_reverse, List.mem_map, List.mem_range]
+  constructor
+  · rintro ⟨k, hk, rfl⟩; exact ⟨k, by omega, rfl⟩
+  · rintro ⟨k, hk, rfl⟩; exact ⟨k, by omega, rfl⟩
+
+theorem take_isPrefixOf (p : Path) (k : Nat) : (p.take k).isPrefixOf p = true := by
+  rw [List.isPrefixOf_iff_prefix]
+  exact List.take_prefix k p
+
+theorem prefix_eq_take (r p : Path) (h : r.isPrefixOf p = true) : r = p.take r.length := by
+  rw [List.isPrefixOf_iff_prefix] at h
+  obtain ⟨t, rfl⟩ := h
+  simp
+
+/-- the upward walk finds a go.mod exactly when the specification says so -/
+theorem uncached_is_spec (nested : List Path) (hn : ∀ r ∈ nested, r ≠ []) (dir : Path) :
+    uncachedNested nested dir = specNested nested dir := by
+  unfold uncachedNested specNested
+  rw [Bool.eq_iff_iff]
+  simp only [List.any_eq_true, Bool.and_eq_true, Bool.not_eq_true', List.contains_iff_mem, List.isEmpty_eq_false_iff]
+  constructor
+  · rintro ⟨a, ha, hne, hin⟩
+    obtain ⟨k, hk, rfl⟩ := (mem_ancestorsOrSelf dir a).mp ha
+    refine ⟨?_, dir.take k, hin, take_isPrefixOf dir k⟩
+    intro h; subst h; simp at hne
+  · rintro ⟨hne, r, hin, hpre⟩
+    have hr := prefix_eq_take r dir hpre
+    have hlen : r.length ≤ dir.length := by
+      rw [List.isPrefixOf_iff_prefix] at hpre; exact hpre.length_le
+    refine ⟨r, (mem_ancestorsOrSelf dir r).mpr ⟨r.length, hlen, hr⟩, ?_, hin⟩
+    simpa using hn r hin
+
+/-- every cached answer is the specification's -/
+def CacheOK (nested : List Path) (cache : NCache) : Prop :=
+  ∀ d b, cache.lookup d = some b → b = specNested nested d
+
+/-- a directory below a directory of a nested module is in that nested module -/
+theorem spec_of_ancestor (nested : List Path) (dir a : Path) (ha : a ∈ ancestorsOrSelf dir)
+    (h : specNested nested a = true) : specNested nested dir = true := by
+  obtain ⟨k, hk, rfl⟩ := (mem_ancestorsOrSelf dir a).mp ha
+  unfold specNested at h ⊢
+  simp only [Bool.and_eq_true, Bool.not_eq_true', List.isEmpty_eq_false_iff, List.any_eq_true] at h ⊢
+  obtain ⟨hne, r, hin, hpre⟩ := h
+  refine ⟨fun e => by subst e; simp at hne, r, hin, ?_⟩
+  rw [List.isPrefixOf_iff_prefix] at hpre ⊢
+  exact hpre.trans (List.take_prefix k dir)
+
+/-- **one call**: with a cache that holds only correct answers, `IsBelongNestedModule` answers the
+    specification and leaves such a cache -/
+theorem query_correct (nested : List Path) (hn : ∀ r ∈ nested, r ≠ []) (cache : NCache) (dir : Path)
+    (hc : CacheOK nested cache) :
+    (queryNested nested cache dir).1 = specNested nested dir ∧ CacheOK nested (queryNested nested cache dir).2 := by
+  unfold queryNested
+  cases hl : cache.lookup dir with
+  | some b => exact ⟨hc dir b hl, hc⟩
+  | none =>
+    simp only
+    split
+    · next hany =>
+      simp only [List.any_eq_true, beq_iff_eq] at hany
+      obtain ⟨a, ha, hla⟩ := hany
+      have hsa : specNested nested a = true := (hc a true hla).symm
+      have hs := spec_of_ancestor nested dir a ha hsa
+      refine ⟨hs.symm, ?_⟩
+      intro d b hd
+      by_cases hdd : d = dir
+      · subst hdd; simp [List.lookup] at hd; subst hd; exact hs.symm
+      · have : (d == dir) = false := by simpa using hdd
+        simp only [List.lookup, this] at hd
+        exact hc d b hd
+    · refine ⟨uncached_is_spec nested hn dir, ?_⟩
+      intro d b hd
+      by_cases hdd : d = dir
+      · subst hdd; simp [List.lookup] at hd; subst hd; exact uncached_is_spec nested hn d
+      · have : (d == dir) = false := by simpa using hdd
+        simp only [List.lookup, this] at hd
+        exact hc d b hd
+
+/-- **the cache is transparent**: for every sequence of queries, in any order, starting from any
+    cache of correct answers (the empty one in particular), every answer is the stateless
+    specification's — the nested-module test does not depend on which directories were asked about
+    before -/
+theorem nested_cache_transparent (nested : List Path) (hn : ∀ r ∈ nested, r ≠ []) (qs : List Path) :
+    ∀ cache, CacheOK nested cache → runNested nested cache qs = qs.map (specNested nested) := by
+  induction qs with
+  | nil => intro _ _; rfl
+  | cons q r ih =>
+    intro cache hc
+    obtain ⟨h1, h2⟩ := query_correct nested hn cache q hc
+    simp only [runNested, List.map_cons, h1, ih _ h2]
+
+theorem nested_cache_transparent_empty (nested : List Path) (hn : ∀ r ∈ nested, r ≠ []) (qs : List Path) :
+    runNested nested [] qs = qs.map (specNested nested) :=
+  nested_cache_transparent nested hn qs [] (fun d b h => by simp [List.lookup] at h)
+
+/-- the specification is the clause of `isTargetDir` -/
+theorem isTargetDir_nested_clause (c : PathCfg) (dir : Path) (h : c.skipNested = true)
+    (hs : specNested c.nestedRoots dir = true) : isTargetDir c dir = false := by
+  unfold specNested at hs
+  simp only [Bool.and_eq_true, Bool.not_eq_true', List.isEmpty_eq_false_iff] at hs
+  unfold isTargetDir
+  simp [h, hs.2, List.isEmpty_eq_false_iff.mpr hs.1]
+
+/-- non-vacuity: a sibling asked after the module directory, a sub-directory asked before and after it -/
+example : runNested [["plugin"]] [] [["plugin", "sub"], ["plugin"], ["pluginapi"], ["plugin", "sub", "x"], []] =
+    [true, true, false, true, false] := by decide
+
 end GoatSpec.C13
